@@ -182,6 +182,10 @@ class EventManager(Runnable):
             self.backoff()
         except CloudCursorError as e:
             log.exception("Cursor error... resetting cursor. %s", e)
+            # forget that a walk was ever completed *before* the fresh cursor is stored: if we are stopped before
+            # the walk below has run, the next start must still know that it needs one
+            if self._walk_tag is not None:
+                self.state.storage_delete_tag(self._walk_tag)
             self.provider.current_cursor = self.provider.latest_cursor
             self._save_current_cursor()
             self.need_walk = True
